@@ -500,6 +500,84 @@ def pair_work(chunk):
     return {"evals": len(chunk), "hist": hist, "viol": viol}
 
 
+# ---------------------------------------------------------------------------------------------
+# an included value is a value like any other: map / filter / reduce / + / selection over it
+
+USE_DOCS = [[], [1], [1, "a", None, True, 1.5], [[1, 2], [3]], [{"a": 1}, {"a": 2}], {"k": [1, 2, 3]}, {"a": 1, "b": "x"}, {"o": {"l": [1, [2]]}}, {}, {"e": []}]
+
+
+def use_program(doc_name, typ, v):
+    lines = ['let v = include %s "./%s";' % (typ, doc_name)]
+    want = {}
+    if isinstance(v, list):
+        lines += ["let m = map(func (x) => x, v);", "let f = filter(func (x) => true, v);", "let rd = reduce(func (acc, x) => acc + [x], [], v);", "let cc = v + v;",
+                  "let n = reduce(func (acc, x) => acc + 1, 0, v);"]
+        want.update({"m": v, "f": v, "rd": v, "cc": v + v, "n": len(v)})
+        if v:
+            lines.append("let first = v.0;")
+            want["first"] = v[0]
+            if isinstance(v[0], list):
+                lines.append("let inner = map(func (x) => x, v.0) + v.0;")
+                want["inner"] = v[0] + v[0]
+    else:
+        lines += ["let m = map(func (k, x) => [k, x], v);", "let f = filter(func (k, x) => true, v);", "let rd = reduce(func (acc, k, x) => acc + [k], [], v);"]
+        want.update({"m": v, "f": v, "rd": list(v)})
+        for k, x in v.items():
+            if isinstance(x, list):
+                lines += ["let l_%s = map(func (x) => x, v.%s) + v.%s;" % (k, k, k), "let n_%s = reduce(func (acc, x) => acc + 1, 0, v.%s);" % (k, k)]
+                want["l_" + k] = x + x
+                want["n_" + k] = len(x)
+            if isinstance(x, dict):
+                for k2, x2 in x.items():
+                    if isinstance(x2, list):
+                        lines.append("let d_%s = filter(func (x) => true, v.%s.%s);" % (k2, k, k2))
+                        want["d_" + k2] = x2
+    return "\n".join(lines) + "\n", want
+
+
+def use_work(chunk):
+    srv = core.worker_server()
+    d = sdir()
+    hist = {}
+    viol = []
+    for i, typ in chunk:
+        v = USE_DOCS[i]
+        if typ == "json":
+            text = json.dumps(v)
+        elif typ == "yaml":
+            text = yaml_doc(v, "block", "plain")
+        else:
+            text = toml_doc(v, "inline") if isinstance(v, dict) and not has_none(v) else None
+        if text is None or not text.strip():
+            continue            # (the empty toml document is the recorded empty-file finding)
+        n = next(_cnt)
+        doc = "udoc%d.dat" % n
+        with open(os.path.join(d, doc), "w") as f:
+            f.write(text)
+        src, want = use_program(doc, typ, v)
+        up = os.path.join(d, "use%d.ucg" % n)
+        with open(up, "w") as f:
+            f.write(src)
+        rs = srv.req({"op": "build", "path": up})
+        os.unlink(up)
+        os.unlink(os.path.join(d, doc))
+        bad = None
+        if "ok" not in rs:
+            bad = ("crash" if ("panic" in rs or "abort" in rs or "hang" in rs) else "valid-program-fails", {k: rs[k] for k in rs if k in ("panic", "loc", "abort", "hang", "err")})
+        else:
+            got = dict(map(tuple, rs["ok"]["t"]))
+            for k, w in want.items():
+                if not wire_equal(expected_wire(w), got.get(k, "MISSING")):
+                    bad = ("wrong-value", {"binding": k, "expected": expected_wire(w), "bound": got.get(k, "MISSING")})
+                    break
+        k = "use-of-included-%s:%s" % (typ, "agrees" if bad is None else bad[0].upper())
+        hist[k] = hist.get(k, 0) + 1
+        if bad:
+            viol.append((i, typ, bad[0], bad[1], src))
+    srv.recycle()
+    return {"evals": len(chunk), "hist": hist, "viol": viol}
+
+
 def cases(thorough):
     docs = {"json": [], "yaml": [], "toml": []}
     for cls, v in py_values(thorough):
@@ -571,7 +649,8 @@ def run(ctx):
                 "{00 41 0A FB FF} for b64 and b64urlsafe; unknown types; every truncation and every single-byte substitution by {, \", :, NUL, 0xFF, 0x80 of "
                 "the longest documents per format (judged by the independent decoder). Each include is one built file; all distinct. Then the same "
                 "file included twice in one build: 4 documents x every ordered pair of 7 include types x {both in one file, either one in an "
-                "imported file} and every triple over {b64, b64urlsafe, json, str}, each binding judged as if it were the only include.")
+                "imported file} and every triple over {b64, b64urlsafe, json, str}, each binding judged as if it were the only include. 10 list / tuple documents x 3 formats used after the include: "
+                "map, filter, reduce, +, selection and the same on nested lists, against what Python computes.")
     viol = []
     for part in core.pmap(work, cs, chunk=400):
         ctx.count(part["evals"], part["evals"])
@@ -584,6 +663,18 @@ def run(ctx):
         for k, v in part["hist"].items():
             ctx.outcome(k, v)
         pviol.extend(part["viol"])
+    for part in core.pmap(use_work, [(i, t) for i in range(len(USE_DOCS)) for t in ("json", "yaml", "toml")], chunk=3):
+        ctx.count(part["evals"], part["evals"])
+        for k, v in part["hist"].items():
+            ctx.outcome(k, v)
+        for i, typ, kind, det, src in part["viol"]:
+            shape = "list" if isinstance(USE_DOCS[i], list) else "tuple"
+            sig = "use-of-included-value:%s:%s:%s" % (kind, typ, (det.get("binding") or str(det.get("panic") or det.get("err") or "")[:50]) if isinstance(det, dict) else "")
+            if sig in ctx.violations:
+                ctx.violations[sig]["count"] += 1
+                continue
+            ctx.violation(sig, "%s when a %s included as %s is used: %s" % (kind, shape, typ, src.replace("\n", " ")[:160]),
+                          {"kind": "include-use", "doc_index": i, "type": typ, "failure": kind, "detail": det})
     for dn, data, types, layout, kind, det in sorted(pviol, key=lambda v: (len(v[2]), v[3], v[2])):
         i = det.get("include", 0) if isinstance(det, dict) else 0
         sig = "same-file-twice:%s:%s-after-%s:%s" % (kind, types[i], "+".join(types[:i]) or "nothing", dn)
@@ -625,6 +716,11 @@ def _not_utf8(b):
 def replay(case):
     data = base64.b64decode(case["data_b64"])
     core._WORKER_SERVER = None
+    if case.get("kind") == "include-use":
+        part = use_work([(case["doc_index"], case["type"])])
+        core.worker_server().close()
+        core._WORKER_SERVER = None
+        return not part["viol"], {"violations": [(v[2], v[3]) for v in part["viol"]]}
     if case.get("kind") == "include-pair":
         ts = case["types"]
         part = pair_work([(case["doc"], data, ts[0], tuple(ts[1:]) if len(ts) > 2 else ts[1], case["layout"])])
